@@ -1,151 +1,20 @@
 import Lean.Data.Json
-import CbiVerif.PP.Find
-import CbiVerif.PP.FSource
-import CbiVerif.PP.Config
-import CbiVerif.Model.Metrics
-open Lean CbiVerif.PP CbiVerif.Argv CbiVerif.Config
+import CbiVerif.Drv.PP
+import CbiVerif.Drv.Metrics
+/-! Native JSON-lines driver: one request object per line, one reply per line.
+Each area registers its ops in `CbiVerif/Drv/<Area>.lean`. -/
+open Lean
 
-def ratJson (r : Option Rat) : Json := match r with
-  | none => Json.null
-  | some q => Json.str (toString q.num ++ "/" ++ toString q.den)
-
-def handleMetrics (j : Json) : Json :=
-  let sm : CbiVerif.Metrics.Setmap := ((j.getObjValAs? (Array Json) "setmap").toOption.getD #[]).toList.map fun e =>
-    match e with
-    | Json.arr a => (((a[0]!).getArr?.toOption.getD #[]).toList.map (fun x => x.getStr?.toOption.getD ""), (a[1]!).getNat?.toOption.getD 0)
-    | _ => ([], 0)
-  let ps := ((j.getObjValAs? (Array String) "platforms").toOption.getD #[]).toList
-  let plats := (CbiVerif.Metrics.platformsOf sm).mergeSort (fun a b => decide (a ≤ b))
-  Json.mkObj [
-    ("coverage", ratJson (CbiVerif.Metrics.coverage sm ps)),
-    ("avg", ratJson (CbiVerif.Metrics.averageCoverage sm ps)),
-    ("divergence", ratJson (CbiVerif.Metrics.divergence sm)),
-    ("plats", Json.arr (plats.map Json.str).toArray),
-    ("matrix", Json.arr (plats.map fun p => Json.arr (plats.map fun q => ratJson (CbiVerif.Metrics.distance sm p q)).toArray).toArray)]
-
-def tokJson (t : Tok) : Json := Json.mkObj [("k", toString (repr t.kind)), ("t", t.text), ("w", t.pw), ("s", t.spell)]
+def handlerTable : List (String × (Json → Json)) :=
+  (ppOps.map fun o => (o, handlePP)) ++
+  CbiVerif.Drv.Metrics.handlers
 
 def handle (j : Json) : Json :=
   match j.getObjValAs? String "op" with
-  | .ok "metrics" => handleMetrics j
-  | .ok "lex" =>
-    match j.getObjValAs? String "text" with
-    | .ok s => Json.arr ((tokenize s).map tokJson).toArray
-    | _ => Json.null
-  | .ok "expand" =>
-    let defs := (j.getObjValAs? (Array String) "defs").toOption.getD #[]
-    let text := (j.getObjValAs? String "text").toOption.getD ""
-    let rec build (ds : List String) (tbl : Table) : Except Err Table :=
-      match ds with
-      | [] => .ok tbl
-      | d :: r => match defineFromLine ("#define " ++ d) with
-        | .ok m => build r (if (tbl.get m.name).isSome then tbl else tbl ++ [(m.name, m)])
-        | .error e => .error e
-    match build defs.toList [] with
-    | .error e => Json.mkObj [("exc", toString (repr e))]
-    | .ok tbl =>
-      match runExpand tbl (tokenize text) with
-      | .ok ts => Json.mkObj [("ok", Json.arr (ts.map tokJson).toArray)]
-      | .error e => Json.mkObj [("exc", toString (repr e))]
-      | .sig s => Json.mkObj [("sig", s)]
-  | .ok "eval" =>
-    let defs := (j.getObjValAs? (Array String) "defs").toOption.getD #[]
-    let text := (j.getObjValAs? String "text").toOption.getD ""
-    let rec build2 (ds : List String) (tbl : Table) : Except Err Table :=
-      match ds with
-      | [] => .ok tbl
-      | d :: r => match macroFromDefinitionString d with
-        | .ok m => build2 r (if (tbl.get m.name).isSome then tbl else tbl ++ [(m.name, m)])
-        | .error e => .error e
-    match build2 defs.toList [] with
-    | .error e => Json.mkObj [("exc", toString (repr e))]
-    | .ok tbl =>
-      match runExpand tbl (tokenize text) with
-      | .ok ts =>
-        match evaluate ts with
-        | .ok b => Json.mkObj [("ok", b)]
-        | .error e => Json.mkObj [("exc", toString (repr e))]
-      | .error e => Json.mkObj [("exc", toString (repr e))]
-      | .sig s => Json.mkObj [("sig", s)]
-  | .ok "analyse" =>
-    let defs := (j.getObjValAs? (Array String) "defs").toOption.getD #[]
-    let text := (j.getObjValAs? String "text").toOption.getD ""
-    match analyseFile text defs.toList with
-    | .ok rows => Json.mkObj [("ok", Json.arr (rows.map fun (k, ls, a) =>
-        Json.arr #[Json.str ((toString (repr k)).splitOn "." |>.getLast!), Json.arr (ls.map fun (n : Nat) => (n : Json)).toArray, Json.bool a]).toArray)]
-    | .error e => Json.mkObj [("exc", toString (repr e))]
-  | .ok "csource" =>
-    let text := (j.getObjValAs? String "text").toOption.getD ""
-    match cFileSource text with
-    | .ok (lls, total, phys) => Json.mkObj [("ok", Json.arr (lls.map fun l =>
-        Json.arr #[Json.arr (l.lines.map fun (n : Nat) => (n : Json)).toArray, Json.str l.text, Json.bool (l.cat == .cppDirective), (l.start : Nat), (l.stop : Nat)]).toArray), ("total", total), ("phys", phys)]
-    | .error e => Json.mkObj [("exc", toString (repr e))]
-  | .ok "find" =>
-    let files : FSMap := match j.getObjVal? "files" with
-      | .ok (Json.obj kvs) => kvs.toList.map fun (k, v) => (k, v.getStr?.toOption.getD "")
-      | _ => []
-    let codebase := (j.getObjValAs? (Array String) "codebase").toOption.getD #[]
-    let cfgArr := (j.getObjValAs? (Array Json) "config").toOption.getD #[]
-    let strs (e : Json) (k : String) : List String := ((e.getObjValAs? (Array String) k).toOption.getD #[]).toList
-    let config : List (String × List Entry) := cfgArr.toList.map fun pj =>
-      ((pj.getObjValAs? String "name").toOption.getD "",
-       ((pj.getObjValAs? (Array Json) "entries").toOption.getD #[]).toList.map fun e =>
-         ({ file := (e.getObjValAs? String "file").toOption.getD "", defines := strs e "defines",
-            includePaths := strs e "include_paths", includeFiles := strs e "include_files" } : Entry))
-    let st := find files codebase.toList config
-    match st.err with
-    | some e => Json.mkObj [("exc", toString (repr e))]
-    | none =>
-      let filesOut := st.trees.map fun (f, (nodes, _)) =>
-        (f, Json.arr (nodes.toList.zipIdx.map fun (n, i) =>
-          let ps := ((st.assoc.find? (·.1 == (f, i))).map (·.2)).getD []
-          Json.arr #[Json.str ((toString (repr n.kind)).splitOn "." |>.getLast!), Json.arr (n.lines.map fun (x : Nat) => (x : Json)).toArray,
-                     Json.arr (ps.map Json.str).toArray]).toArray)
-      let warns := st.warns.map fun w => match w with
-        | .userInclude f l n => Json.arr #[Json.str "user", Json.str f, (l : Nat), Json.str n]
-        | .sysInclude f l n => Json.arr #[Json.str "system", Json.str f, (l : Nat), Json.str n]
-      Json.mkObj [("ok", Json.mkObj filesOut), ("warns", Json.arr warns.toArray)]
-  | .ok "fsource" =>
-    let text := (j.getObjValAs? String "text").toOption.getD ""
-    match fFileSource text with
-    | .ok rows => Json.mkObj [("ok", Json.arr (rows.map fun (ls, t, d) =>
-        Json.arr #[Json.arr (ls.map fun (n : Nat) => (n : Json)).toArray, Json.str t, Json.bool d]).toArray)]
-    | .error e => Json.mkObj [("exc", toString (repr e))]
-  | .ok "parseargs" =>
-    -- {"compilers": {name: {alias_of?, options, rules:[{flags,nargs,act,...}], defaults:{flag:[..]}, modes:{..}, passes:{..}}}, "argv0": .., "argv": [...], "matches": [[flag0, value, [..]]]}
-    let strs (e : Json) (k : String) : List String := ((e.getObjValAs? (Array String) k).toOption.getD #[]).toList
-    let getS (e : Json) (k : String) : String := (e.getObjValAs? String k).toOption.getD ""
-    let objList (e : Json) (k : String) : List (String × Json) := match e.getObjVal? k with | .ok (Json.obj kvs) => kvs.toList | _ => []
-    let decRule (r : Json) : Opt :=
-      let flags := strs r "flags"
-      let nargs := match getS r "nargs" with | "one" => Nargs.one | "opt" => Nargs.opt | _ => Nargs.zero
-      let act : Act := match getS r "act" with
-        | "append" => .append (getS r "dest")
-        | "append_const" => .appendConst (getS r "dest") (getS r "const")
-        | "store_split" => .storeSplit (getS r "sep") (getS r "prefix") (flags.headD "")
-        | "extend_match" => .extendMatch (getS r "prefix") (flags.headD "") ((r.getObjValAs? Bool "override").toOption.getD false)
-        | _ => .ignore
-      ⟨flags, nargs, act⟩
-    let decMode (m : Json) : ModeDef := ⟨strs m "defines", strs m "include_paths", strs m "include_files"⟩
-    let decComp (c : Json) : Compiler :=
-      { aliasOf := (c.getObjValAs? String "alias_of").toOption, options := strs c "options",
-        rules := ((c.getObjValAs? (Array Json) "rules").toOption.getD #[]).toList.map decRule,
-        defaults := (objList c "defaults").map fun (k, v) => (k, (v.getArr?.toOption.getD #[]).toList.map fun x => x.getStr?.toOption.getD ""),
-        modes := (objList c "modes").map fun (k, v) => (k, decMode v),
-        passes := (objList c "passes").map fun (k, v) => (k, { toModeDef := decMode v, modes := strs v "modes" }) }
-    let comps := (objList j "compilers").map fun (k, v) => (k, decComp v)
-    let mtab : List (String × String × List String) := ((j.getObjValAs? (Array Json) "matches").toOption.getD #[]).toList.map fun e =>
-      match e with
-      | Json.arr a => ((a[0]!).getStr?.toOption.getD "", (a[1]!).getStr?.toOption.getD "", ((a[2]!).getArr?.toOption.getD #[]).toList.map fun x => x.getStr?.toOption.getD "")
-      | _ => ("", "", [])
-    let mf (f v : String) : List String := ((mtab.find? fun e => e.1 == f && e.2.1 == v).map (·.2.2)).getD []
-    let (comp, logs1) := resolveCompiler comps (getS j "argv0")
-    match parseArgs comp (strs j "argv") mf with
-    | .error e => Json.mkObj [("exc", toString (repr e))]
-    | .ok (cfgs, logs2) =>
-      Json.mkObj [("ok", Json.arr (cfgs.map fun c => Json.mkObj [("pass", c.passName), ("defines", Json.arr (c.defines.map Json.str).toArray),
-          ("include_paths", Json.arr (c.includePaths.map Json.str).toArray), ("include_files", Json.arr (c.includeFiles.map Json.str).toArray)]).toArray),
-        ("logs", Json.arr ((logs1 ++ logs2).map fun l => Json.str (toString (repr l))).toArray)]
+  | .ok op =>
+    match handlerTable.find? (·.1 == op) with
+    | some (_, h) => h j
+    | none => Json.mkObj [("unknown_op", op)]
   | _ => Json.null
 
 partial def loopIO (h : IO.FS.Stream) : IO Unit := do
